@@ -632,6 +632,7 @@ def oracle_surface(ck, rng):
     import tempfile, os
     from acryo import pipe
     from scipy.spatial.transform import Rotation
+    from scipy import ndimage as ndi
     fails = []
 
     def expect(cond, site, what, inp=None):
@@ -681,6 +682,25 @@ def oracle_surface(ck, rng):
                "validation", "division of a pipeline by zero accepted", {})
         expect(raises(lambda: pipe.gaussian_filter(sigma=1.0) @ np.ones((2, 2, 2)), TypeError) and raises(lambda: pipe.gaussian_filter(sigma=1.0).compose(3.0), TypeError),
                "validation", "composition with a non-pipeline accepted", {})
+        # soft_otsu(sigma, radius) is its documented chain: Otsu threshold, dilation by radius (erosion if negative), Gaussian smoothing by sigma
+        grey = ndi.gaussian_filter(rng.normal(size=(14, 15, 16)), 1.5).astype(np.float32)
+        for sg_, rd_ in ((0.8, 2.4), (2.0, 1.0), (1.2, -1.5), (1.5, 0.0)):
+            for scale in (1.0, 0.5):
+                got = pipe.soft_otsu(sigma=sg_ * scale, radius=rd_ * scale).convert(grey, scale)
+                want = (pipe.gaussian_smooth(sigma=sg_ * scale) @ pipe.dilation(radius=rd_ * scale) @ pipe.threshold_otsu()).convert(grey, scale)
+                expect(got.shape == want.shape and np.allclose(got, want, atol=1e-6), "soft-otsu",
+                       f"soft_otsu(sigma={sg_}, radius={rd_}) differs from gaussian_smooth(sigma) @ dilation(radius) @ threshold_otsu()", {"scale": scale})
+        # providers are functions of the scale: evaluating a product / sum / quotient again gives the same image and leaves the operands alone
+        src = (rng.random((6, 7, 8)) * 3 + 1).astype(np.float32)
+        keep = src.copy()
+        pa = pipe.from_array(src, original_scale=1.0)
+        pb = pipe.from_array((rng.random((6, 7, 8)) + 2).astype(np.float32), original_scale=1.0)
+        for name, expr_ in (("a * b", pa * pb), ("a * a", pa * pa), ("2.5 * a", 2.5 * pa), ("a * 3", pa * 3.0), ("a + b", pa + pb), ("a - 1", pa - 1.0), ("a / b", pa / pb),
+                            ("gaussian_filter @ (a * b)", pipe.gaussian_filter(sigma=1.0) @ (pa * pb))):
+            first_ = np.array(expr_(1.0), copy=True)
+            second_ = np.array(expr_(1.0), copy=True)
+            expect(np.array_equal(first_, second_), "provider-memory", f"evaluating the provider `{name}` a second time gives another image", {})
+            expect(np.array_equal(src, keep) and np.array_equal(np.asarray(pa(1.0)), keep), "provider-memory", f"evaluating `{name}` changed the array its operand provides", {})
         expect(raises(lambda: pipe.gaussian_smooth(-1.0).convert(img, 1.0), ValueError), "validation", "negative sigma accepted by gaussian_smooth", {})
         expect(raises(lambda: pipe.gaussian_smooth("x").convert(img, 1.0), ValueError), "validation", "non-numeric sigma accepted by gaussian_smooth", {})
         expect(raises(lambda: pipe.dilation("x").convert(img, 1.0), ValueError), "validation", "non-numeric radius accepted by dilation", {})
